@@ -5,7 +5,7 @@ out=$(mktemp -d /tmp/soak_XXXX)
 for s in "$@"; do
   for p in ${PROPS:-C05 C14 C15 C17 C12 C08 C18}; do
     t0=$(date +%s)
-    VERIF_SEED=$s VERIF_SKIP_DETERMINISM=${SKIPDET:-1} VERIF_WORKERS=${VERIF_WORKERS:-10} VERIF_EVIDENCE_DIR=$out/ev VERIF_REPLAY_DIR=$out/rp-$s VERIF_LOGDIR=$out/logs \
+    VERIF_SEED=$s VERIF_SKIP_DETERMINISM=${SKIPDET:-1} VERIF_WORKERS=${VERIF_WORKERS:-16} VERIF_EVIDENCE_DIR=$out/ev VERIF_REPLAY_DIR=$out/rp-$s VERIF_LOGDIR=$out/logs \
       /venv/bin/python check.py $p --tier ${TIER:-quick} > $out/$p-$s.out 2> $out/$p-$s.err
     rc=$?
     echo "seed=$s $p exit=$rc $(( $(date +%s) - t0 ))s"
